@@ -484,7 +484,16 @@ def _build_block_stacks(
         if next_template:
             base = next_template
 
-    assert base
+    if base is None:
+        # An `extends` tag rendered while `template` is the current template,
+        # but not one of its own nodes: inside a macro defined elsewhere, or
+        # through a render context built for another template.
+        raise TemplateInheritanceError(
+            "the extends tag does not belong to the template being rendered",
+            token=None,
+            template_name=template.name,
+        )
+
     return base
 
 
@@ -537,7 +546,16 @@ async def _build_block_stacks_async(
         if next_template:
             base = next_template
 
-    assert base
+    if base is None:
+        # An `extends` tag rendered while `template` is the current template,
+        # but not one of its own nodes: inside a macro defined elsewhere, or
+        # through a render context built for another template.
+        raise TemplateInheritanceError(
+            "the extends tag does not belong to the template being rendered",
+            token=None,
+            template_name=template.name,
+        )
+
     return base
 
 
